@@ -857,7 +857,7 @@ def check_c16(run):
     run.selftest()
     for fam in opt_families(run):
         mod = fam.write(run.scratch)
-        bad, n = run.tlc_events(mod, fam.name, "opt", cfg=mod + ".cfg", chunks=14, events_args=["--setter-events"] if fam.name in ("optmix", "optpath", "optraw") else [])
+        bad, n = run.tlc_events(mod, fam.name, "opt", cfg=mod + ".cfg", chunks=14, events_args=["--setter-events"] if fam.name in (("optmix", "optraw") if run.tier == "quick" else ("optmix", "optpath", "optraw")) else [])
         run.samples.append("[%s/opt] %d composite events (input x option configuration) recorded from the real code" % (fam.name, n))
         absorb_events(run, bad, fam.name)
         run.distinct += n
@@ -866,8 +866,8 @@ def check_c16(run):
     exact = ["special_gopher", "special_nofile", "set_path", "set_query", "set_squery", "set_frag", "set_sfrag"]
     q = run.tier == "quick"
     r_ = rng(run.seed, "c16traces")
-    for i, pn in enumerate(exact if not q else r_.sample(exact, 3)):
-        bad, nev = run.record_and_validate(1500 if q else 12000, seed_salt=160 + i, parser=pn, parse_only=40)
+    for i, pn in enumerate(exact if not q else r_.sample(exact, 2)):
+        bad, nev = run.record_and_validate(1200 if q else 12000, seed_salt=160 + i, parser=pn, parse_only=40)
         mine = [(dict(ev, k="trace", opt=pn, **{"in": ev.get("a", [])}), [v for v in vs if not v.startswith("C03")]) for ev, vs in bad]
         absorb_events(run, [(e, v) for e, v in mine if v], "option-traces")
     run.samples.append("[T-mode] histories recorded on parsers built with special-scheme tables / replaced percent-encode sets, validated by TLC against UrlApi.tla with POpts = the option record")
@@ -920,7 +920,7 @@ def check_c17(run):
     keep = ("struct", "path", "class", "creds", "host") if q else ("struct", "path", "class", "creds", "host", "file", "dotdeep", "ws", "brackets")
     fams = [f for f in c01_families(run) if f.name in keep]
     L = filler_letter(run.seed)
-    fams.append(Family("idemquery", "&=+%25a1'" + L, 4 if q else 5, prefixes=["http://h/?", "x:o?"], invariants=["PtrOk"]))   # ' : spelled %27 by the parser of a special URL, literally by the list serializer
+    fams.append(Family("idemquery", ("&=%25'" + L) if q else ("&=+%25a1'" + L), 4 if q else 5, prefixes=["http://h/?", "x:o?"], invariants=["PtrOk"]))   # ' : spelled %27 by the parser of a special URL, literally by the list serializer
     for f in fams:
         f.bases, f.nobase = [], True
         if q and f.name in ("struct", "path"):
